@@ -329,6 +329,7 @@ pub fn dispatch(f: &[&str]) -> String {
         x if x.starts_with("c19.") || x == "msg.full" => crate::misc::dispatch(f),
         "dkim.sign" => crate::dkim::sign(f),
         "mime.format" => crate::mime::format(f[1]),
+        "mime.mutate_after_format" => crate::mime::mutate_after_format(),
         "mime.threads" => {
             // generated boundaries of multiparts created on several fresh threads (k each): they are nested into one another in real
             // programs, so all of them must differ
@@ -521,10 +522,12 @@ pub fn dispatch(f: &[&str]) -> String {
         }
         "builder.ops" => {
             use lettre::message::{Mailbox, Message};
-            let mut b = Message::builder();
+            // the three ways to a builder (an optional first op ctor,new / ctor,default chooses; Message::builder() otherwise)
+            let mut b = if f[1].starts_with("ctor,new") { lettre::message::MessageBuilder::new() } else if f[1].starts_with("ctor,default") { lettre::message::MessageBuilder::default() } else { Message::builder() };
             if !f[1].is_empty() {
                 for op in f[1].split(';') {
                     let p: Vec<&str> = op.split(',').collect();
+                    if p[0] == "ctor" { continue; }
                     let mbx = |p: &Vec<&str>| -> Option<Mailbox> {
                         let name = if p[1] == "!" { None } else { Some(utf8(unhex(p[1]))?) };
                         let addr: lettre::Address = utf8(unhex(p[2]))?.parse().ok()?;
